@@ -77,6 +77,8 @@ CANARIES = [
     ('cursor-pop-root', 'C08', 'src/cursor.rs', '                    if self.stack.len() == 1 {\n                        return false;\n                    }\n', ''),
     ('filter-kv-yields-buckets-too', 'C08', 'src/cursor.rs', '            if let Data::KeyValue(kv) = data {\n                return Some(kv);\n            }\n        }\n        None', '            if let Data::KeyValue(kv) = data {\n                return Some(kv);\n            } else {\n                return None;\n            }\n        }\n        None'),
     ('filter-buckets-readonly-handle', 'C08', 'src/cursor.rs', '                            writable: self.writable,\n                            freelist: self.freelist.clone(),\n                            inner: r,', '                            writable: true,\n                            freelist: self.freelist.clone(),\n                            inner: r,'),
+    ('bytes-cmp-reversed', 'C08', 'src/bytes.rs', '        a.cmp(b)', '        b.cmp(a)'),
+    ('bytes-eq-by-length', 'C01', 'src/bytes.rs', '        a.eq(b)', '        a.len() == b.len()'),
     ('cursor-next-repeats-entry', 'C08', 'src/cursor.rs', '        } else if self.next_called && !self.advance() {', '        } else if false && !self.advance() {'),
     ('cursor-search-wrong-child', 'C08', 'src/cursor.rs', '        let next_page_id = page_node.index_page(index);', '        let next_page_id = page_node.index_page(0);'),
     ('cursor-skip-loop-spins', 'C08', 'src/cursor.rs', '        while self.on_emptied_leaf() {\n            if !self.advance() {\n                return None;\n            }\n        }', '        while self.on_emptied_leaf() {\n            if self.stack.is_empty() {\n                return None;\n            }\n        }'),
